@@ -194,6 +194,12 @@ def cases(rng, tier):
             chunks = M.rand_partition(rng, body)
             yield _ev(b, cs, chunks)
             yield _stream(rng.choice(["mp_stream", "mp_astream", "mp_stream", "mp_astream", "mp_stream_min", "mp_astream_min"]), b, cs, 324, None, chunks)
+        if not epi and i % 3 == 0:
+            # the body ends exactly at the closing delimiter (no line break after `--boundary--`, which is optional)
+            bare = body[:-2]
+            chunks = M.rand_partition(rng, bare)
+            yield _stream(rng.choice(["mp_stream", "mp_astream"]), b, cs, 324, None, chunks)
+            yield _stream(rng.choice(["mp_stream", "mp_astream"]), b, cs, 324, None, [bare])
         ne = M.rand_partition(rng, body, empties=False)
         ct = 'multipart/form-data; boundary=%s' % b.decode("latin-1")
         if rng.random() < 0.5 and b'"' not in b and b"\\" not in b:
